@@ -18,7 +18,8 @@ PROFILES = {
         },
         "core": ["vec", "tab_dict", "view", "set"],
         "knobs": {"p_fault": [0.0, 0.05, 0.1], "p_natural": [0.0, 0.05, 0.1], "p_ragged": [0.0, 0.0, 0.05],
-                  "p_col_from_vec": [0.0, 0.3], "max_objs": [6, 9, 12], "p_donor": [0.5, 0.8]},
+                  "p_col_from_vec": [0.0, 0.3], "max_objs": [6, 9, 12], "p_donor": [0.5, 0.8],
+                  "names": [["a", "b", "c", "d", "x", "y"], ["a", "b", "c", "d", "x", "y"], ["a", "b", 2024, 7, "x", 2.5]]},
         "steps": (15, 60),
         # identity reuse is legal at any time; a cache keyed on id() only shows under it
         "vid": [[1, 0, 0], [1, 0, 0], [1, 2, 0], [1, 1, 2]],
@@ -42,13 +43,14 @@ PROFILES = {
         "weights": {
             "vec": 10, "vnew": 2, "csv": 3, "tab_dict": 5, "tab_vecs": 2, "copy": 2, "getitem": 4, "row": 5, "lshift": 6, "rshift": 2,
             "binop": 10, "unop": 6, "cast": 4, "fillna": 5, "v0": 5, "sort": 3, "join": 3, "agg": 3, "method": 3,
-            "view": 4, "set": 12, "tset": 7, "setattr": 1, "read": 1, "drop": 3,
+            "view": 4, "set": 12, "tset": 7, "setattr": 1, "read": 1, "drop": 3, "hammer": 1.5,
         },
         "core": ["vec", "set", "binop"],
         "knobs": {"p_natural": [0.0, 0.05], "p_wider": [0.15, 0.3], "p_incompat": [0.05, 0.1], "p_none_write": [0.1, 0.2],
                   "p_foreign": [0.0, 0.05], "max_objs": [6, 9],
                   # same-kind tables (matrix-like) now and then: a row of such a table is typed by the columns
-                  "kinds": [None, None, ["int"], ["int", "float"], ["bool", "int"], ["date", "datetime"]]},
+                  "kinds": [None, None, ["int"], ["int", "float"], ["bool", "int"], ["date", "datetime"],
+                            ["decimal", "int", "float"], ["fraction", "int"]]},
         "steps": (15, 50),
     },
     # C15: process-lifetime histories with adversarial identity reuse and deferred collection
@@ -56,7 +58,7 @@ PROFILES = {
         "weights": {
             "vec": 12, "input_tuple": 5, "vec_of_input": 8, "vec_of_cols": 3, "drop_input": 2, "copy": 3, "getitem": 4, "binop": 2,
             "tab_dict": 3, "tab_vecs": 4, "rshift": 4, "lshift": 2, "t2d": 1, "view": 5, "setattr": 4, "deepcopy": 1,
-            "writeback": 16, "set": 4, "tset": 2, "drop": 10, "park": 4, "collect": 3, "read": 1,
+            "writeback": 16, "set": 6, "tset": 2, "drop": 10, "park": 4, "collect": 3, "read": 1, "hammer": 0.5,
             "fillna": 2, "cast": 1, "v0": 2, "sort": 1, "tsel": 1,
         },
         "core": ["vec", "writeback", "drop"],
@@ -70,12 +72,12 @@ PROFILES = {
         "weights": {
             "vec": 8, "tab_dict": 8, "tab_vecs": 4, "copy": 2, "getitem": 2, "rshift": 3, "view": 10,
             "set": 14, "tset": 12, "setattr": 6, "setname": 1, "rencol": 1, "fp": 22, "read": 3, "binop": 1, "sort": 2,
-            "fillna": 2, "cast": 1, "v0": 2, "lshift": 2, "tsel": 1, "t2d": 1, "join": 1,
+            "fillna": 2, "cast": 1, "v0": 2, "lshift": 2, "tsel": 1, "t2d": 1, "join": 1, "hammer": 1,
             "drop": 2,
         },
         "core": ["vec", "tab_dict", "fp", "set", "tset", "view"],
         "knobs": {"p_fault": [0.0, 0.05], "p_natural": [0.0, 0.05], "p_wider": [0.1, 0.25], "max_objs": [4, 6, 9],
-                  "rare": [0.0, 0.02], "len": [(0, 6), (0, 6), (5, 12)]},
+                  "rare": [0.0, 0.02, 0.15], "len": [(0, 6), (0, 6), (5, 12)], "max_cols": [4, 4, 12]},
         "steps": (15, 50),
         "vid": [[1, 0, 0], [1, 2, 0], [1, 1, 2], [0, 1, 3]],
     },
@@ -101,7 +103,7 @@ PROFILES = {
         "core": ["tab_dict", "view", "set", "tset", "join", "agg"],
         "knobs": {"kinds": [["int", "str", "int", "bool", "float"], ["int", "str"]], "p_none": [0.0, 0.1], "len": [(2, 4), (2, 6)],
                   "max_cols": [2, 3], "max_objs": [4, 6], "p_wider": [0.0, 0.1], "p_incompat": [0.0], "rare": [0.0],
-                  "p_foreign": [0.0], "join_kinds": [["inner_join"]], "agg_fns": [["aggregate"]], "p_empty": [0.0, 0.03],
+                  "p_foreign": [0.0], "join_kinds": [["inner_join"]], "agg_fns": [["aggregate"]], "p_empty": [0.0, 0.03], "p_collide": [0.15, 0.5],
                   "names": [["k", "g", "a", "b"], ["k", "v", "w"]]},
         "steps": (15, 45),
         "vid": [[1, 0, 0], [1, 2, 0], [1, 1, 2], [0, 1, 3]],
@@ -131,12 +133,21 @@ def swarm(rng, profile_name):
         knobs[k] = rng.choice(choices)
     lo, hi = p["steps"]
     steps = rng.randint(lo, hi)
-    if rng.random() < 0.015 and profile_name in ("alias", "shape", "dtype", "fingerprint", "derive", "lifetime"):
+    if rng.random() < (0.04 if profile_name == "relhist" else 0.015) and profile_name in (
+            "alias", "shape", "dtype", "fingerprint", "derive", "lifetime", "relhist"):
         # a few runs cross the library's size-dependent branches (len > 1000): few objects, few steps
         knobs["len"] = (1001, 1003)
         knobs["p_empty"] = 0.0
         knobs["max_objs"] = 3
         steps = min(steps, 14)
+        for k in ("T", "join"):        # a transposed 1000-row table has 1000 columns: not what these runs are for
+            if k in w:
+                w[k] = 0
+        if profile_name == "relhist":
+            knobs["max_cols"] = 2
+            knobs["kinds"] = ["int"]
+            knobs["focus"] = 0.9
+            knobs["p_collide"] = 0.7
     vid = None
     if p.get("vid"):
         vid = rng.choice(p["vid"])
